@@ -1,12 +1,37 @@
 #!/usr/bin/env python3
 """Runs the owning check (quick tier) against every seeded change in /verif/seeded/*,
 each applied in a scratch worktree of /repo (VERIF_REPO), and writes seeded/RESULTS.md.
-Usage: tools/run_seeded.py [name-prefix ...]      (scratch worktrees are removed afterwards)"""
+Usage: tools/run_seeded.py [name-prefix ...]      (scratch worktrees are removed afterwards)
+       tools/run_seeded.py --control               (every check on an unpatched scratch worktree: all must pass)"""
 import json, os, subprocess, sys, shutil, time
 HERE = os.path.dirname(os.path.dirname(os.path.abspath(__file__)))
 def sh(cmd, **kw):
     return subprocess.run(cmd, shell=True, capture_output=True, text=True, **kw)
+def control():
+    """Every check against an UNPATCHED scratch worktree: must exit 0.  A check that reports a
+    violation here depends on where the tree lives (or on state outside it), and every 'caught'
+    it reports for a seeded change is worthless - this happened once (C18, catalogue paths)."""
+    wt = "/tmp/seed_control"
+    sh("git -C /repo worktree remove --force %s" % wt)
+    sh("git -C /repo worktree add -q --detach %s HEAD" % wt)
+    out = {}
+    for i in range(1, 21):
+        p = "C%02d" % i
+        c = sh("cd %s && VERIF_REPO=%s VERIF_SEED=%s timeout 1500 ./check %s --tier quick" % (HERE, wt, os.environ.get("VERIF_SEED", "0"), p))
+        out[p] = c.returncode
+        print(p, c.returncode, flush=True)
+        for l in c.stdout.splitlines():
+            if l.startswith("VIOLATION") and "replay=" in l:
+                f = l.split("replay=")[1].strip()
+                if os.path.exists(f) and len(os.path.basename(f)) == 17:
+                    os.remove(f)
+    sh("git -C /repo worktree remove --force %s" % wt)
+    shutil.rmtree(wt, ignore_errors=True)
+    json.dump(out, open(os.path.join(HERE, "seeded", "control.json"), "w"), indent=1)
+    return 0 if all(v == 0 for v in out.values()) else 1
 def main():
+    if sys.argv[1:] == ["--control"]:
+        sys.exit(control())
     want = sys.argv[1:]
     rows = []
     res_file = os.path.join(HERE, "seeded", "results.json")
